@@ -4,12 +4,25 @@
   Proofs/C02_Escape.lean (decoder `c02_unescape`, entity check `c02_ampsOk`),
   Proofs/C02_Tokens.lean (token model `c02_Tok`, `c02_tokens`, `c02_balanced`, `c02_coalesce`),
   Proofs/C02_Lexer.lean (strict lexer `c02_lexHtml`, hypothesis `c02_plainNames`),
-  Proofs/C02_Sound.lean (canonical spelling `c02_render` of a token list; the lexer accepts only those).
+  Proofs/C02_Sound.lean (canonical spelling `c02_render` of a token list; the lexer accepts only those),
+  Proofs/C02_Subst.lean (substitutions `c02_Sub`, `c02_mapForest`, `c02_mapStrings`; they commute with
+    `strip_empty` and `collapse`), Proofs/C02_Shape.lean (`c02_shape`, `c02_skeleton`, substituted tokens),
+  Proofs/C02_AllTags.lean (tag predicates survive `strip_empty`/`collapse`; plain names),
+  Proofs/C02_SubstLocal.lean (per-forest, decidable hypotheses `c02_subOkOn`),
+  Proofs/C02_ConvertNames.lean (the converter emits plain names: `c02_plainCfg`),
+  Proofs/C02_DocSubst.lean, Proofs/C02_DocSubstVisit.lean (text runs of the document are never inspected).
 -/
 import Proofs.C02_Escape
 import Proofs.C02_Tokens
 import Proofs.C02_Lexer
 import Proofs.C02_Sound
+import Proofs.C02_Subst
+import Proofs.C02_Shape
+import Proofs.C02_AllTags
+import Proofs.C02_SubstLocal
+import Proofs.C02_ConvertNames
+import Proofs.C02_DocSubstVisit
+import Proofs.C08_DefaultMap
 namespace Mammoth
 
 /-! ## 1. escaping -/
@@ -201,5 +214,537 @@ example : c02_balanced [.start S!"a" [], .start S!"b" [], .end S!"a", .end S!"b"
 -- (they come from the style map and from library constants, never from the document)
 example : writeHtml [.elem { name := S!"p><script" } []] = S!"<p><script></p><script>" := by rfl
 example : c02_plainNames [.elem { name := S!"p><script" } []] = false := by decide
+
+/-! ## 6. substitution invariance on forests
+
+A substitution `σ : c02_Sub` replaces every string of a forest: `σ.text` is applied to the string of
+every text node and to every separator, `σ.attr k` to the value of every attribute named `k`
+(`c02_mapForest σ`); tag names, alternative names, attribute names, their order and the collapsible
+flags are left alone.  `c02_mapStrings σ` is the special case of one function `σ : Str → Str` used
+everywhere.  Hypotheses (they quantify over strings, so they are `Prop`s, not `Bool`s; the examples
+below discharge them for concrete substitutions, and section 7 gives the decidable, per-forest form):
+`σ.TextOk`: `σ.text s` is empty iff `s` is;  `σ.AttrInj`: each `σ.attr k` is injective. -/
+
+/-- `strip_empty` commutes with substitution, provided text stays empty / non-empty. -/
+theorem C02_strip_subst (σ : c02_Sub) (ht : σ.TextOk) (ns : List Node) :
+    stripEmpty (c02_mapForest σ ns) = c02_mapForest σ (stripEmpty ns) :=
+  c02_stripEmpty_map σ ht ns
+
+/-- `collapse` commutes with substitution, provided distinct values of an attribute stay distinct
+    (`_is_match` compares the attribute dictionaries) and separators stay empty / non-empty
+    (`if node.separator:`). -/
+theorem C02_collapse_subst (σ : c02_Sub) (ht : σ.TextOk) (ha : σ.AttrInj) (ns : List Node) :
+    collapse (c02_mapForest σ ns) = c02_mapForest σ (collapse ns) :=
+  c02_collapse_map σ ht ha ns
+
+/-- Hence the forest that is written for the substituted input is the substituted forest that is
+    written for the original input. -/
+theorem C02_render_forest_subst (σ : c02_Sub) (ht : σ.TextOk) (ha : σ.AttrInj) (ns : List Node) :
+    collapse (stripEmpty (c02_mapForest σ ns)) = c02_mapForest σ (collapse (stripEmpty ns)) := by
+  rw [c02_stripEmpty_map σ ht, c02_collapse_map σ ht ha]
+
+/-- SHAPE INVARIANCE.  The written forest of the substituted input has the same shape — tag names,
+    attribute names in order, nesting, positions of text leaves — as that of the original input. -/
+theorem C02_shape_subst (σ : c02_Sub) (ht : σ.TextOk) (ha : σ.AttrInj) (ns : List Node) :
+    c02_shape (collapse (stripEmpty (c02_mapForest σ ns))) = c02_shape (collapse (stripEmpty ns)) :=
+  c02_shape_subst σ ht ha ns
+
+/-- The token stream of a substituted forest is the image of the token stream (no hypothesis): tags
+    keep their names and attribute names, void elements stay void. -/
+theorem C02_tokens_subst (σ : c02_Sub) (ns : List Node) :
+    c02_tokens (c02_mapForest σ ns) = (c02_tokens ns).map (c02_mapTok σ) :=
+  c02_tokens_map σ ns
+
+/-- WRITTEN FORM.  For a forest with plain names, the HTML rendered for the original and for the
+    substituted forest both lex; the two token lists have the same skeleton (tags, attribute names,
+    nesting, places of text); the tags of the second are exactly the images of the tags of the first
+    (attribute values replaced by their substitutes); and both balance. -/
+theorem C02_render_subst (σ : c02_Sub) (ht : σ.TextOk) (ha : σ.AttrInj) (ns : List Node)
+    (hp : c02_plainNames ns = true) :
+    ∃ toks toks', c02_lexHtml (render ns) = some toks ∧
+      c02_lexHtml (render (c02_mapForest σ ns)) = some toks' ∧
+      c02_skeleton toks' = c02_skeleton toks ∧
+      c02_tokMarkup toks' = (c02_tokMarkup toks).map (c02_mapTok σ) ∧
+      c02_balanced toks = true ∧ c02_balanced toks' = true := by
+  have hp1 := c02_plainNames_render ns hp
+  have hp2 : c02_plainNames (c02_mapForest σ (collapse (stripEmpty ns))) = true := by
+    rw [c02_plainNames_map]; exact hp1
+  refine ⟨c02_coalesce (c02_tokens (collapse (stripEmpty ns))),
+    c02_coalesce ((c02_tokens (collapse (stripEmpty ns))).map (c02_mapTok σ)),
+    C02_lex_write _ hp1, ?_, ?_, ?_, ?_, ?_⟩
+  · show c02_lexHtml (writeHtml (collapse (stripEmpty (c02_mapForest σ ns)))) = _
+    rw [C02_render_forest_subst σ ht ha, C02_lex_write _ hp2, c02_tokens_map]
+  · exact c02_skeleton_coalesce_map σ ht _
+  · exact c02_tokMarkup_coalesce_map σ _
+  · rw [c02_balanced_coalesce]; exact C02_tokens_balanced _
+  · rw [c02_balanced_coalesce, ← c02_tokens_map]; exact C02_tokens_balanced _
+
+/-- WRITTEN FORM, exact.  If in addition the written forest has no two adjacent text nodes (and no
+    empty one), the token list of the substituted rendering is literally the image of the token list
+    of the original rendering: every text and every attribute value is replaced by its substitute
+    and nothing else changes. -/
+theorem C02_render_subst_exact (σ : c02_Sub) (ht : σ.TextOk) (ha : σ.AttrInj) (ns : List Node)
+    (hp : c02_plainNames ns = true)
+    (hs : c02_textSeparated (c02_tokens (collapse (stripEmpty ns))) = true) :
+    ∃ toks, c02_lexHtml (render ns) = some toks ∧
+      c02_lexHtml (render (c02_mapForest σ ns)) = some (toks.map (c02_mapTok σ)) := by
+  have hp1 := c02_plainNames_render ns hp
+  have hp2 : c02_plainNames (c02_mapForest σ (collapse (stripEmpty ns))) = true := by
+    rw [c02_plainNames_map]; exact hp1
+  refine ⟨_, C02_lex_write_exact _ hp1 hs, ?_⟩
+  show c02_lexHtml (writeHtml (collapse (stripEmpty (c02_mapForest σ ns)))) = _
+  rw [C02_render_forest_subst σ ht ha, C02_lex_write_exact _ hp2, c02_tokens_map]
+  rw [c02_tokens_map, c02_textSeparated_map σ ht]; exact hs
+
+/-! ### one function for all strings -/
+
+/-- a function that is injective and fixes the empty string keeps non-empty strings non-empty -/
+theorem C02_uniform_ok (σ : Str → Str) (hi : ∀ a b, σ a = σ b → a = b) (h0 : σ [] = []) :
+    (c02_Sub.uniform σ).TextOk ∧ (c02_Sub.uniform σ).AttrInj := by
+  refine ⟨?_, fun _ a b h => hi a b h⟩
+  intro s
+  cases s with
+  | nil => show (σ []).isEmpty = _; rw [h0]
+  | cons c cs =>
+    show (σ (c :: cs)).isEmpty = false
+    cases h : σ (c :: cs) with
+    | nil => exact absurd (hi _ _ (h.trans h0.symm)) (by simp)
+    | cons _ _ => rfl
+
+/-- SHAPE INVARIANCE for `mapStrings σ`, `σ` injective with `σ "" = ""` (so that non-empty strings
+    stay non-empty): replacing every text, attribute value and separator `s` by `σ s` changes no tag,
+    attribute name or nesting of the written forest. -/
+theorem C02_mapStrings_shape (σ : Str → Str) (hi : ∀ a b, σ a = σ b → a = b) (h0 : σ [] = [])
+    (ns : List Node) :
+    c02_shape (collapse (stripEmpty (c02_mapStrings σ ns))) = c02_shape (collapse (stripEmpty ns)) :=
+  c02_shape_subst _ (C02_uniform_ok σ hi h0).1 (C02_uniform_ok σ hi h0).2 ns
+
+/-- ... and the written forest itself is the `σ`-image of the original written forest -/
+theorem C02_mapStrings_render_forest (σ : Str → Str) (hi : ∀ a b, σ a = σ b → a = b) (h0 : σ [] = [])
+    (ns : List Node) :
+    collapse (stripEmpty (c02_mapStrings σ ns)) = c02_mapStrings σ (collapse (stripEmpty ns)) :=
+  C02_render_forest_subst _ (C02_uniform_ok σ hi h0).1 (C02_uniform_ok σ hi h0).2 ns
+
+/-! ### examples -/
+
+/-- hostile replacement: every non-empty string gets `"><script>` in front (injective, fixes `""`) -/
+def c02_exSigma (s : Str) : Str := if s.isEmpty then [] else S!"\"><script>" ++ s
+
+theorem c02_exSigma_inj (a b : Str) (h : c02_exSigma a = c02_exSigma b) : a = b := by
+  unfold c02_exSigma at h
+  cases a <;> cases b <;> simp_all
+
+/-- two collapsible links with the same target (they merge), a paragraph that is stripped, a
+    separator, an empty text node -/
+def c02_exForest : List Node :=
+  [ .elem { name := S!"a", attrs := [(S!"href", S!"u?x=1&y=2")], collapsible := true } [.text S!"one"],
+    .elem { name := S!"a", attrs := [(S!"href", S!"u?x=1&y=2")], collapsible := true, separator := some S!", " }
+      [.text S!"two"],
+    .elem { name := S!"a", attrs := [(S!"href", S!"other")], collapsible := true } [.text S!"three"],
+    .elem { name := S!"p" } [.text []],
+    .elem { name := S!"img", attrs := [(S!"alt", S!"A & B"), (S!"src", S!"x.png")] } [] ]
+
+example : c02_plainNames c02_exForest = true := by decide
+
+example : render c02_exForest =
+    S!"<a href=\"u?x=1&amp;y=2\">one, two</a><a href=\"other\">three</a><img alt=\"A &amp; B\" src=\"x.png\" />" := by
+  rfl
+
+set_option maxRecDepth 20000 in
+example : render (c02_mapStrings c02_exSigma c02_exForest) =
+    S!"<a href=\"&quot;&gt;&lt;script&gt;u?x=1&amp;y=2\">&quot;&gt;&lt;script&gt;one&quot;&gt;&lt;script&gt;, &quot;&gt;&lt;script&gt;two</a><a href=\"&quot;&gt;&lt;script&gt;other\">&quot;&gt;&lt;script&gt;three</a><img alt=\"&quot;&gt;&lt;script&gt;A &amp; B\" src=\"&quot;&gt;&lt;script&gt;x.png\" />" := by
+  rfl
+
+example : c02_shape (collapse (stripEmpty (c02_mapStrings c02_exSigma c02_exForest)))
+    = c02_shape (collapse (stripEmpty c02_exForest)) :=
+  C02_mapStrings_shape _ c02_exSigma_inj rfl _
+
+example : c02_shape (collapse (stripEmpty c02_exForest)) =
+    [ .elem S!"a" [S!"href"] [.text, .text, .text], .elem S!"a" [S!"href"] [.text],
+      .elem S!"img" [S!"alt", S!"src"] [] ] := by rfl
+
+/-- a substitution with different functions: text is blanked to `"x"`, attribute values are reversed -/
+def c02_exSub : c02_Sub := ⟨fun s => if s.isEmpty then [] else S!"x", fun _ v => v.reverse⟩
+
+theorem c02_exSub_ok : c02_exSub.TextOk ∧ c02_exSub.AttrInj := by
+  refine ⟨fun s => ?_, fun _ a b h => List.reverse_inj.mp h⟩
+  cases s <;> simp [c02_exSub]
+
+example : ∃ toks toks', c02_lexHtml (render c02_exForest) = some toks ∧
+      c02_lexHtml (render (c02_mapForest c02_exSub c02_exForest)) = some toks' ∧
+      c02_skeleton toks' = c02_skeleton toks ∧
+      c02_tokMarkup toks' = (c02_tokMarkup toks).map (c02_mapTok c02_exSub) ∧
+      c02_balanced toks = true ∧ c02_balanced toks' = true :=
+  C02_render_subst _ c02_exSub_ok.1 c02_exSub_ok.2 _ (by decide)
+
+set_option maxRecDepth 20000 in
+example : (c02_lexHtml (render (c02_mapForest c02_exSub c02_exForest))).map c02_skeleton = some
+    [ .start S!"a" [S!"href"], .text, .end S!"a", .start S!"a" [S!"href"], .text, .end S!"a",
+      .selfClose S!"img" [S!"alt", S!"src"] ] := by rfl
+
+/-- two links with different targets and a void element between text -/
+def c02_cexLinks' : List Node :=
+  [ .elem { name := S!"a", attrs := [(S!"href", S!"u1")], collapsible := true } [.text S!"1"],
+    .elem { name := S!"a", attrs := [(S!"href", S!"u2")], collapsible := true }
+      [.text S!"2", .elem { name := S!"br" } [], .text S!"3"] ]
+
+-- the commutation laws, evaluated on the example (both sides computed by the kernel)
+example : stripEmpty (c02_mapForest c02_exSub c02_exForest) = c02_mapForest c02_exSub (stripEmpty c02_exForest) :=
+  C02_strip_subst _ c02_exSub_ok.1 _
+example : collapse (c02_mapForest c02_exSub (stripEmpty c02_exForest))
+    = c02_mapForest c02_exSub (collapse (stripEmpty c02_exForest)) :=
+  C02_collapse_subst _ c02_exSub_ok.1 c02_exSub_ok.2 _
+example : collapse (stripEmpty (c02_mapForest c02_exSub c02_exForest)) =
+    [ .elem { name := S!"a", attrs := [(S!"href", S!"2=y&1=x?u")], collapsible := true }
+        [.text S!"x", .text S!"x", .text S!"x"],
+      .elem { name := S!"a", attrs := [(S!"href", S!"rehto")], collapsible := true } [.text S!"x"],
+      .elem { name := S!"img", attrs := [(S!"alt", S!"B & A"), (S!"src", S!"gnp.x")] } [] ] := by rfl
+
+-- `C02_render_subst_exact`: a forest whose written form has no adjacent text nodes
+example : c02_plainNames c02_cexLinks' = true ∧
+    c02_textSeparated (c02_tokens (collapse (stripEmpty c02_cexLinks'))) = true := by decide
+example : ∃ toks, c02_lexHtml (render c02_cexLinks') = some toks ∧
+    c02_lexHtml (render (c02_mapForest c02_exSub c02_cexLinks')) = some (toks.map (c02_mapTok c02_exSub)) :=
+  C02_render_subst_exact _ c02_exSub_ok.1 c02_exSub_ok.2 _ (by decide) (by decide)
+
+/-! ### each hypothesis is needed -/
+
+/-- NOT INJECTIVE on attribute values: two links with different targets are kept apart, but after
+    replacing both targets by the same string `collapse` merges them (one `<a>` instead of two). -/
+def c02_cexLinks : List Node :=
+  [ .elem { name := S!"a", attrs := [(S!"href", S!"u1")], collapsible := true } [.text S!"1"],
+    .elem { name := S!"a", attrs := [(S!"href", S!"u2")], collapsible := true } [.text S!"2"] ]
+def c02_cexConst (s : Str) : Str := if s.isEmpty then [] else S!"x"
+
+example : (c02_Sub.uniform c02_cexConst).TextOk := by intro s; cases s <;> simp [c02_Sub.uniform, c02_cexConst]
+example : render c02_cexLinks = S!"<a href=\"u1\">1</a><a href=\"u2\">2</a>" := by rfl
+example : render (c02_mapStrings c02_cexConst c02_cexLinks) = S!"<a href=\"x\">xx</a>" := by rfl
+example : c02_shape (collapse (stripEmpty c02_cexLinks))
+    = [.elem S!"a" [S!"href"] [.text], .elem S!"a" [S!"href"] [.text]] := by rfl
+example : c02_shape (collapse (stripEmpty (c02_mapStrings c02_cexConst c02_cexLinks)))
+    = [.elem S!"a" [S!"href"] [.text, .text]] := by rfl
+example : c02_skeleton (c02_tokens (collapse (stripEmpty (c02_mapStrings c02_cexConst c02_cexLinks))))
+    ≠ c02_skeleton (c02_tokens (collapse (stripEmpty c02_cexLinks))) := by decide
+
+/-- A NON-EMPTY TEXT BECOMES EMPTY (attribute values untouched, so `AttrInj` holds): the paragraph
+    is stripped. -/
+def c02_cexBlank : c02_Sub := ⟨fun _ => [], fun _ v => v⟩
+example : c02_cexBlank.AttrInj := fun _ _ _ h => h
+example : render [.elem { name := S!"p" } [.text S!"a"]] = S!"<p>a</p>" := by rfl
+example : render (c02_mapForest c02_cexBlank [.elem { name := S!"p" } [.text S!"a"]]) = [] := by rfl
+example : c02_shape (collapse (stripEmpty (c02_mapForest c02_cexBlank [.elem { name := S!"p" } [.text S!"a"]])))
+    = [] := by rfl
+
+/-- THE EMPTY TEXT BECOMES NON-EMPTY (`σ s = "x" ++ s` is injective and keeps non-empty strings
+    non-empty, but `σ "" ≠ ""`): a paragraph that was stripped now appears. -/
+def c02_cexPrefix (s : Str) : Str := 'x' :: s
+example : ∀ a b, c02_cexPrefix a = c02_cexPrefix b → a = b := by intro a b h; simpa [c02_cexPrefix] using h
+example : ∀ s, s ≠ [] → c02_cexPrefix s ≠ [] := by intro s _; simp [c02_cexPrefix]
+example : render [.elem { name := S!"p" } [.text []]] = [] := by rfl
+example : render (c02_mapStrings c02_cexPrefix [.elem { name := S!"p" } [.text []]]) = S!"<p>x</p>" := by rfl
+
+/-- A NON-EMPTY SEPARATOR BECOMES EMPTY: the merged element loses a text leaf. -/
+def c02_cexSep : List Node :=
+  [ .elem { name := S!"pre", collapsible := true } [.text S!"1"],
+    .elem { name := S!"pre", collapsible := true, separator := some S!"\n" } [.text S!"2"] ]
+def c02_cexSepSub : c02_Sub := ⟨fun s => if s = S!"\n" then [] else s, fun _ v => v⟩
+example : c02_shape (collapse (stripEmpty c02_cexSep)) = [.elem S!"pre" [] [.text, .text, .text]] := by rfl
+example : c02_shape (collapse (stripEmpty (c02_mapForest c02_cexSepSub c02_cexSep)))
+    = [.elem S!"pre" [] [.text, .text]] := by rfl
+
+/-! ## 7. substitution invariance, hypotheses checked on the forest only
+
+`c02_subOkOn σ ns` is the decidable form of the hypotheses of section 6, restricted to the strings
+that occur in `ns`: every text/separator string of `ns` stays empty or non-empty under `σ.text`,
+and any two DIFFERENT values that `ns` gives to the same attribute name get different substitutes
+("distinct for distinct originals").  Nothing is asked of `σ` on other strings. -/
+
+/-- EXTENSION.  A substitution that is good on the strings of `ns` acts on `ns` exactly like some
+    substitution that is good on all strings (so every theorem of section 6 applies to it). -/
+theorem C02_subst_extend (σ : c02_Sub) (ns : List Node) (h : c02_subOkOn σ ns = true) :
+    ∃ τ : c02_Sub, τ.TextOk ∧ τ.AttrInj ∧ c02_mapForest σ ns = c02_mapForest τ ns ∧
+      (∀ s ∈ c02_texts ns, τ.text s = σ.text s) ∧
+      (∀ p ∈ c02_attrsOfL ns, τ.attr p.1 p.2 = σ.attr p.1 p.2) :=
+  c02_subOkOn_extend σ ns h
+
+/-- SHAPE INVARIANCE, per-forest hypotheses. -/
+theorem C02_shape_subst_local (σ : c02_Sub) (ns : List Node) (h : c02_subOkOn σ ns = true) :
+    c02_shape (collapse (stripEmpty (c02_mapForest σ ns))) = c02_shape (collapse (stripEmpty ns)) :=
+  c02_shape_subst_local σ ns h
+
+/-- WRITTEN FORM, per-forest hypotheses: both renderings lex, to token lists with the same skeleton
+    (same tags, attribute names, nesting and text places), and both balance. -/
+theorem C02_render_subst_local (σ : c02_Sub) (ns : List Node) (h : c02_subOkOn σ ns = true)
+    (hp : c02_plainNames ns = true) :
+    ∃ toks toks', c02_lexHtml (render ns) = some toks ∧
+      c02_lexHtml (render (c02_mapForest σ ns)) = some toks' ∧
+      c02_skeleton toks' = c02_skeleton toks ∧
+      c02_balanced toks = true ∧ c02_balanced toks' = true := by
+  obtain ⟨τ, ht, ha, he, _, _⟩ := c02_subOkOn_extend σ ns h
+  obtain ⟨toks, toks', h1, h2, h3, _, h5, h6⟩ := C02_render_subst τ ht ha ns hp
+  exact ⟨toks, toks', h1, by rw [he]; exact h2, h3, h5, h6⟩
+
+/-- a finite substitution given by a table (strings not in the table are left alone) -/
+def c02_exTable (tbl : List (Str × Str)) (s : Str) : Str :=
+  match tbl.find? (fun p => p.1 == s) with
+  | some p => p.2
+  | none => s
+
+/-- texts and targets of `c02_exForest` replaced by hostile strings; the two equal targets get the
+    same substitute, the third target a different one -/
+def c02_exLocalSub : c02_Sub :=
+  c02_Sub.uniform (c02_exTable
+    [ (S!"one", S!"</a>"), (S!"two", S!"<a>"), (S!"three", S!"&"), (S!", ", S!"\""),
+      (S!"u?x=1&y=2", S!"\" onclick=\""), (S!"other", S!"javascript:alert(1)"),
+      (S!"A & B", S!"<b>"), (S!"x.png", S!"y.png") ])
+
+example : c02_subOkOn c02_exLocalSub c02_exForest = true := by decide
+
+set_option maxRecDepth 20000 in
+example : render (c02_mapForest c02_exLocalSub c02_exForest) =
+    S!"<a href=\"&quot; onclick=&quot;\">&lt;/a&gt;&quot;&lt;a&gt;</a><a href=\"javascript:alert(1)\">&amp;</a><img alt=\"&lt;b&gt;\" src=\"y.png\" />" := by
+  rfl
+
+example : c02_shape (collapse (stripEmpty (c02_mapForest c02_exLocalSub c02_exForest)))
+    = c02_shape (collapse (stripEmpty c02_exForest)) :=
+  C02_shape_subst_local _ _ (by decide)
+
+-- the per-forest check fails for the counterexamples of section 6
+example : c02_subOkOn (c02_Sub.uniform c02_cexConst) c02_cexLinks = false := by decide
+example : c02_subOkOn c02_cexBlank [.elem { name := S!"p" } [.text S!"a"]] = false := by decide
+example : c02_subOkOn (c02_Sub.uniform c02_cexPrefix) [.elem { name := S!"p" } [.text []]] = false := by decide
+example : c02_subOkOn c02_cexSepSub c02_cexSep = false := by decide
+
+/-! ## 8. the converter produces plain names only
+
+`c02_plainCfg cfg`: every tag of every style-map path has a plain name and plain attribute names
+(`c02_plainMap`), and the attribute names returned by the image converter are plain
+(`c02_plainConv`; `data_uri` returns `src` only).  All other names in the output are the literals of
+conversion.py / images.py: `p s sub sup em strong a input table thead tbody tr th td br img li ol dl
+dt dd` and `href target type checked colspan rowspan alt src data-len id`. -/
+
+/-- Every tag name and attribute name produced by `visit` (any element, any state) is plain. -/
+theorem C02_visit_plain_names (cfg : Cfg) (h : c02_plainCfg cfg = true) (hdr : Bool) (e : Elem)
+    (st st' : ConvState) (ns : List Node) (hr : visit cfg hdr e st = .ok (ns, st')) :
+    c02_plainNames ns = true := by
+  simp only [c02_plainCfg, Bool.and_eq_true] at h
+  exact c02_plain_visit cfg h.1 h.2 hdr e st ns st' hr
+
+/-- Every tag name and attribute name in the forest produced for a whole document — body, notes,
+    comments, the trailing `ol` and `dl` — is plain, for every document. -/
+theorem C02_convert_plain_names (cfg : Cfg) (h : c02_plainCfg cfg = true) (d : Document) (r : ConvResult)
+    (hr : convertDoc cfg d = .ok r) : c02_plainNames r.nodes = true :=
+  c02_plain_convertDoc cfg h d r hr
+
+/-- WELL-FORMEDNESS OF REAL CONVERSIONS.  For every document and every configuration with plain
+    names, the returned HTML (`render` of the produced forest) is in the strict grammar, its tags
+    balance and nest, and the attribute values and the text decode to exactly the strings of the
+    written forest. -/
+theorem C02_convert_wellformed (cfg : Cfg) (h : c02_plainCfg cfg = true) (d : Document) (r : ConvResult)
+    (hr : convertDoc cfg d = .ok r) :
+    ∃ toks, c02_lexHtml (render r.nodes) = some toks ∧ c02_balanced toks = true ∧
+      c02_tokAttrs toks = c02_attrsOfL (collapse (stripEmpty r.nodes)) ∧
+      c02_tokText toks = textOfL (collapse (stripEmpty r.nodes)) := by
+  have hp := c02_plainNames_render _ (C02_convert_plain_names cfg h d r hr)
+  obtain ⟨toks, h1, h2, h3⟩ := C02_strings_roundtrip _ hp
+  refine ⟨toks, h1, ?_, h2, h3⟩
+  obtain ⟨toks', h1', h2', _⟩ := C02_written_wellformed _ hp
+  have : toks = toks' := Option.some.inj (h1.symm.trans h1')
+  rw [this]; exact h2'
+
+/-- SUBSTITUTION INVARIANCE OF REAL CONVERSIONS (forest level).  Replacing the strings of the
+    produced forest by others (good on that forest) changes no tag, attribute name or nesting of the
+    returned HTML. -/
+theorem C02_convert_subst (cfg : Cfg) (h : c02_plainCfg cfg = true) (d : Document) (r : ConvResult)
+    (hr : convertDoc cfg d = .ok r) (σ : c02_Sub) (hσ : c02_subOkOn σ r.nodes = true) :
+    ∃ toks toks', c02_lexHtml (render r.nodes) = some toks ∧
+      c02_lexHtml (render (c02_mapForest σ r.nodes)) = some toks' ∧
+      c02_skeleton toks' = c02_skeleton toks ∧
+      c02_balanced toks = true ∧ c02_balanced toks' = true :=
+  C02_render_subst_local σ r.nodes hσ (C02_convert_plain_names cfg h d r hr)
+
+/-- a style map with attributes and a separator, a custom image converter -/
+def c02_exCfg : Cfg :=
+  { styleMap :=
+      [ { matcher := .paragraph (some S!"Code") none none,
+          path := .elements [ { name := S!"pre", attrs := [(S!"class", S!"code <x>")], collapsible := true,
+                                separator := some S!"\n" } ] },
+        { matcher := .bold, path := .elements [ { name := S!"b", collapsible := true } ] },
+        { matcher := .commentReference, path := .elements [pathElem S!"sup" false] } ],
+    idPrefix := S!"doc-\"1\"-",
+    imageConv := .fixed [(S!"src", S!"a&b.png"), (S!"class", S!"im\"g")] false }
+
+def c02_exDoc : Document :=
+  { children :=
+      [ .paragraph { styleId := some S!"Code" } [.text S!"if a < b && c:"],
+        .paragraph { styleId := some S!"Code" } [.text S!"  print(\"<&>\")"],
+        .paragraph {} [ .bookmark (some S!"top\"><"), .run { bold := true } [.text S!"x"],
+                        .run { bold := true } [.text S!"y", .noteRef S!"footnote" S!"1"],
+                        .hyperlink { href := some S!"http://e.x/?a=1&b=\"2\"" } [.text S!"link"],
+                        .image { altText := some S!"<alt>", src := .linked S!"z.png" },
+                        .commentRef S!"c\"0" ],
+        .table none none [ .row false [.cell 2 1 false [.paragraph {} [.text S!"cell"]]] ] ],
+    notes := [ { ty := S!"footnote", id := S!"1", body := [.paragraph {} [.text S!"note & more"]] } ],
+    comments := [ { id := S!"c\"0", body := [.paragraph {} [.text S!"why?"]], authorInitials := some S!"<A>" } ] }
+
+example : c02_plainCfg c02_exCfg = true := by decide
+
+set_option maxRecDepth 100000 in
+example : (convertDoc c02_exCfg c02_exDoc).map (fun r => render r.nodes) = .ok
+    S!"<pre class=\"code &lt;x&gt;\">if a &lt; b &amp;&amp; c:\n  print(&quot;&lt;&amp;&gt;&quot;)</pre><p><a id=\"doc-&quot;1&quot;-top&quot;&gt;&lt;\"></a><b>xy<sup><a href=\"#doc-&quot;1&quot;-footnote-1\" id=\"doc-&quot;1&quot;-footnote-ref-1\">[1]</a></sup></b><a href=\"http://e.x/?a=1&amp;b=&quot;2&quot;\">link</a><img alt=\"&lt;alt&gt;\" class=\"im&quot;g\" src=\"a&amp;b.png\" /><sup><a href=\"#doc-&quot;1&quot;-comment-c&quot;0\" id=\"doc-&quot;1&quot;-comment-ref-c&quot;0\">[&lt;A&gt;1]</a></sup></p><table><tr><td colspan=\"2\"><p>cell</p></td></tr></table><ol><li id=\"doc-&quot;1&quot;-footnote-1\"><p>note &amp; more <a href=\"#doc-&quot;1&quot;-footnote-ref-1\">↑</a></p></li></ol><dl><dt id=\"doc-&quot;1&quot;-comment-c&quot;0\">Comment [&lt;A&gt;1]</dt><dd><p>why? <a href=\"#doc-&quot;1&quot;-comment-ref-c&quot;0\">↑</a></p></dd></dl>" := by
+  rfl
+
+/-- the default style map (`options._default_style_map`, parsed by the model's DSL parser) and the
+    default image converter have plain names: the theorems above apply to conversions with default
+    options, for every document -/
+theorem C02_default_cfg_plain (cfg : Cfg) (hs : cfg.styleMap = defaultStyleMap) (hi : cfg.imageConv = .dataUri) :
+    c02_plainCfg cfg = true := by
+  simp only [c02_plainCfg, c02_plainMap, hs, hi, c08_default_map_value, c02_plainConv, Bool.and_true]
+  decide
+
+-- `C02_convert_subst` on the example: all strings of the produced forest reversed
+set_option maxRecDepth 100000 in
+example : (convertDoc c02_exCfg c02_exDoc).map (fun r => c02_subOkOn (c02_Sub.uniform List.reverse) r.nodes)
+    = .ok true := by rfl
+
+-- the hypothesis is needed: names from the style map and from the image converter are copied verbatim
+example : (convertDoc { styleMap := [ { matcher := .bold, path := .elements [pathElem S!"b><script" false] } ] }
+      { children := [.run { bold := true } [.text S!"x"]] }).map (fun r => render r.nodes)
+    = .ok S!"<b><script>x</b><script>" := by rfl
+example : c02_plainCfg { styleMap := [ { matcher := .bold, path := .elements [pathElem S!"b><script" false] } ] }
+    = false := by decide
+example : (convertDoc { imageConv := .fixed [(S!"src=\"\" onerror", S!"alert(1)")] false }
+      { children := [.image { src := .linked S!"z.png" }] }).map (fun r => render r.nodes)
+    = .ok S!"<img src=\"\" onerror=\"alert(1)\" />" := by rfl
+example : c02_plainCfg { imageConv := .fixed [(S!"src=\"\" onerror", S!"alert(1)")] false } = false := by decide
+
+/-- ... and the style-map language itself does NOT guarantee plain names: a backslash escapes any
+    character inside a tag name, so `b => em\>\<script` is read as the tag name `em><script` (the
+    real parser does the same; the output is `<p><em><script>1</em><script></p>`).  Plainness of the
+    style map's names is a genuine hypothesis about the (trusted) options. -/
+example : (readStyleMap S!"b => em\\>\\<script").1 =
+    [ { matcher := .bold, path := .elements [ { name := S!"em><script", collapsible := true } ] } ] := by
+  decide +kernel
+example : c02_plainCfg { styleMap := (readStyleMap S!"b => em\\>\\<script").1 } = false := by decide +kernel
+
+/-! ## 9. substitution in the document: text runs
+
+`c02_mapDocText σ d` applies `σ` to the string of every text run (`documents.Text.value`) of the
+body, of every note and of every comment of `d`; nothing else is touched.  Hypothesis on `σ`: a text
+is empty iff its substitute is (no injectivity is needed: the converter never compares text).
+NOT covered: the strings that end up in attribute values (link targets, anchor and bookmark names,
+alt text, ids, `id_prefix`) — for those see `C02_convert_subst` (forest level) and the
+counterexample at the end of this section — and style ids / style names, which the converter
+legitimately inspects to choose the style mapping. -/
+
+/-- The converter does not look at text: on the substituted document the conversion raises the same
+    error, or succeeds with the same warnings, the same image-converter calls, the same I/O and the
+    same note references, and a forest that differs from the original one only in the strings of
+    its text leaves (`c02_BR`: equal after blanking every non-empty text). -/
+theorem C02_convert_text_subst (σ : Str → Str) (hσ : ∀ s, (σ s).isEmpty = s.isEmpty) (cfg : Cfg)
+    (d : Document) : c02_sameUpToText (convertDoc cfg d) (convertDoc cfg (c02_mapDocText σ d)) :=
+  c02_convertDoc_mapText σ hσ cfg d
+
+/-- Forests that differ only in the strings of their text leaves are written with the same shape;
+    more precisely the written forests again differ only in the strings of their text leaves. -/
+theorem C02_blank_render (ns ns' : List Node) (h : c02_BR ns ns') :
+    c02_BR (collapse (stripEmpty ns)) (collapse (stripEmpty ns')) ∧
+    c02_shape (collapse (stripEmpty ns')) = c02_shape (collapse (stripEmpty ns)) := by
+  have e := fun ms => C02_render_forest_subst c02_blankSub c02_blankSub_textOk c02_blankSub_attrInj ms
+  have h1 : c02_BR (collapse (stripEmpty ns)) (collapse (stripEmpty ns')) := by
+    show c02_mapForest c02_blankSub _ = c02_mapForest c02_blankSub _
+    rw [← e, ← e]
+    exact congrArg (fun x => collapse (stripEmpty x)) h
+  refine ⟨h1, ?_⟩
+  rw [← c02_shape_map c02_blankSub (collapse (stripEmpty ns')), ← c02_shape_map c02_blankSub (collapse (stripEmpty ns))]
+  exact congrArg c02_shape h1
+
+/-- SUBSTITUTION INVARIANCE FOR TEXT RUNS, shape.  If the conversion of `d` succeeds, so does the
+    conversion of the substituted document, with the same messages, and the written forests have the
+    same shape. -/
+theorem C02_convert_text_shape (σ : Str → Str) (hσ : ∀ s, (σ s).isEmpty = s.isEmpty) (cfg : Cfg)
+    (d : Document) (r : ConvResult) (h : convertDoc cfg d = .ok r) :
+    ∃ r', convertDoc cfg (c02_mapDocText σ d) = .ok r' ∧ r'.messages = r.messages ∧
+      c02_shape (collapse (stripEmpty r'.nodes)) = c02_shape (collapse (stripEmpty r.nodes)) := by
+  have hs := C02_convert_text_subst σ hσ cfg d
+  rw [h] at hs
+  cases h' : convertDoc cfg (c02_mapDocText σ d) with
+  | error e => rw [h'] at hs; exact hs.elim
+  | ok r' =>
+    rw [h'] at hs
+    exact ⟨r', rfl, hs.2.1, (C02_blank_render _ _ hs.1).2⟩
+
+/-- SUBSTITUTION INVARIANCE FOR TEXT RUNS, written form.  With plain names in the options, both
+    HTML results lex; the tags of the two token lists are literally the same (names, attribute
+    names AND attribute values, order), and the skeletons (tags and places of text) are the same. -/
+theorem C02_convert_text_written (σ : Str → Str) (hσ : ∀ s, (σ s).isEmpty = s.isEmpty) (cfg : Cfg)
+    (hc : c02_plainCfg cfg = true) (d : Document) (r : ConvResult) (h : convertDoc cfg d = .ok r) :
+    ∃ r' toks toks', convertDoc cfg (c02_mapDocText σ d) = .ok r' ∧
+      c02_lexHtml (render r.nodes) = some toks ∧ c02_lexHtml (render r'.nodes) = some toks' ∧
+      c02_tokMarkup toks' = c02_tokMarkup toks ∧ c02_skeleton toks' = c02_skeleton toks := by
+  have hs := C02_convert_text_subst σ hσ cfg d
+  rw [h] at hs
+  cases h' : convertDoc cfg (c02_mapDocText σ d) with
+  | error e => rw [h'] at hs; exact hs.elim
+  | ok r' =>
+    rw [h'] at hs
+    have hb := (C02_blank_render _ _ hs.1).1
+    have hp := c02_plainNames_render _ (C02_convert_plain_names cfg hc d r h)
+    have hp' := c02_plainNames_render _ (C02_convert_plain_names cfg hc _ r' h')
+    refine ⟨r', _, _, rfl, C02_lex_write _ hp, C02_lex_write _ hp', ?_, ?_⟩
+    · have e := congrArg (fun x => c02_tokMarkup (c02_tokens x)) hb
+      simp only [c02_blank, c02_tokens_map] at e
+      rw [c02_tokMarkup_coalesce, c02_tokMarkup_coalesce]
+      have idm : ∀ ts : List c02_Tok, c02_tokMarkup (ts.map (c02_mapTok c02_blankSub)) = c02_tokMarkup ts := by
+        intro ts
+        have ida : ∀ as : List (Str × Str), c02_mapAttrs c02_blankSub.attr as = as := by
+          intro as
+          induction as with
+          | nil => rfl
+          | cons kv r ih => obtain ⟨k, v⟩ := kv; simp only [c02_mapAttrs, ih]; rfl
+        induction ts with
+        | nil => rfl
+        | cons t ts ih => cases t <;> simp [c02_tokMarkup, c02_mapTok, ih, ida]
+      rw [idm, idm] at e
+      exact e
+    · have e := congrArg (fun x => c02_skeleton (c02_coalesce (c02_tokens x))) hb
+      simp only [c02_blank, c02_tokens_map, c02_skeleton_coalesce_map c02_blankSub c02_blankSub_textOk] at e
+      exact e
+
+/-- the hostile replacement of section 6 keeps empty / non-empty apart -/
+theorem c02_exSigma_ok (s : Str) : (c02_exSigma s).isEmpty = s.isEmpty := by
+  cases s <;> simp [c02_exSigma]
+
+set_option maxRecDepth 100000 in
+example : (convertDoc c02_exCfg (c02_mapDocText c02_exSigma c02_exDoc)).map (fun r => render r.nodes) = .ok
+    S!"<pre class=\"code &lt;x&gt;\">&quot;&gt;&lt;script&gt;if a &lt; b &amp;&amp; c:\n&quot;&gt;&lt;script&gt;  print(&quot;&lt;&amp;&gt;&quot;)</pre><p><a id=\"doc-&quot;1&quot;-top&quot;&gt;&lt;\"></a><b>&quot;&gt;&lt;script&gt;x&quot;&gt;&lt;script&gt;y<sup><a href=\"#doc-&quot;1&quot;-footnote-1\" id=\"doc-&quot;1&quot;-footnote-ref-1\">[1]</a></sup></b><a href=\"http://e.x/?a=1&amp;b=&quot;2&quot;\">&quot;&gt;&lt;script&gt;link</a><img alt=\"&lt;alt&gt;\" class=\"im&quot;g\" src=\"a&amp;b.png\" /><sup><a href=\"#doc-&quot;1&quot;-comment-c&quot;0\" id=\"doc-&quot;1&quot;-comment-ref-c&quot;0\">[&lt;A&gt;1]</a></sup></p><table><tr><td colspan=\"2\"><p>&quot;&gt;&lt;script&gt;cell</p></td></tr></table><ol><li id=\"doc-&quot;1&quot;-footnote-1\"><p>&quot;&gt;&lt;script&gt;note &amp; more <a href=\"#doc-&quot;1&quot;-footnote-ref-1\">↑</a></p></li></ol><dl><dt id=\"doc-&quot;1&quot;-comment-c&quot;0\">Comment [&lt;A&gt;1]</dt><dd><p>&quot;&gt;&lt;script&gt;why? <a href=\"#doc-&quot;1&quot;-comment-ref-c&quot;0\">↑</a></p></dd></dl>" := by
+  rfl
+
+example : c02_sameUpToText (convertDoc c02_exCfg c02_exDoc) (convertDoc c02_exCfg (c02_mapDocText c02_exSigma c02_exDoc)) :=
+  C02_convert_text_subst _ c02_exSigma_ok _ _
+
+/-- the hypothesis is needed: blanking a non-empty run makes its paragraph disappear -/
+example : (convertDoc {} { children := [.paragraph {} [.text S!"a"]] }).map (fun r => render r.nodes)
+    = .ok S!"<p>a</p>" := by rfl
+example : (convertDoc {} (c02_mapDocText (fun _ => []) { children := [.paragraph {} [.text S!"a"]] })).map
+    (fun r => render r.nodes) = .ok [] := by rfl
+
+/-! ### attribute strings: the document-level statement is FALSE as literally worded
+
+An external link target `#pa` and the internal anchor `a` are different document strings, but with
+`id_prefix = "p"` both become the attribute value `#pa`, so the two adjacent links collapse into
+one.  Replacing the anchor name by another string (distinct originals still get distinct
+substitutes) separates them: the nesting changes.  The real library does the same (checked:
+`<p><a href="#pa">12</a></p>` versus `<p><a href="#pa">1</a><a href="#pb">2</a></p>`).  The forest
+level theorem `C02_convert_subst` is the correct form: what must stay distinct are the attribute
+VALUES of the produced forest. -/
+def c02_cexAnchorDoc (anchor : Str) : Document :=
+  { children := [ .paragraph {} [ .hyperlink { href := some S!"#pa" } [.run {} [.text S!"1"]],
+                                  .hyperlink { anchor := some anchor } [.run {} [.text S!"2"]] ] ] }
+
+example : (convertDoc { idPrefix := S!"p" } (c02_cexAnchorDoc S!"a")).map (fun r => render r.nodes)
+    = .ok S!"<p><a href=\"#pa\">12</a></p>" := by rfl
+example : (convertDoc { idPrefix := S!"p" } (c02_cexAnchorDoc S!"b")).map (fun r => render r.nodes)
+    = .ok S!"<p><a href=\"#pa\">1</a><a href=\"#pb\">2</a></p>" := by rfl
 
 end Mammoth
